@@ -23,7 +23,8 @@ EXPLANATION = (
     'function; R-C17.4 the evolve lock is incremented on evolving and '
     'decremented on both evolved and evolving_failed, with no other writer; '
     'R-C17.5 the evolutions announced for an evolution batch derive from the '
-    'same batch entry as the SQL that is executed for it.')
+    'same batch entry as the SQL that is executed for it; '
+    'R-C17.5 also rejects labels aggregated over several batch entries (comprehension-bound task_info).')
 NOT_DECIDED = (
     'That the payload (evolutions, migrations, model names) equals exactly '
     'what was executed between the paired signals for every run.')
@@ -490,8 +491,33 @@ def r5_payload_provenance(ctx):
              if kwarg(c, 'sql') is not None]
     ctx.floor('task.execute(sql=...) call sites in execute_tasks', len(calls),
               1)
+    COMPS = (ast.ListComp, ast.SetComp, ast.DictComp, ast.GeneratorExp)
+
+    def entry_defs(pairs):
+        """(loop-variable definitions, comprehension-bound uses) of the batch
+        entry `task_info` among the origins."""
+        loops, comp = set(), []
+        for on, oe in pairs:
+            bound = set()
+            for cpr in ast.walk(oe):
+                if isinstance(cpr, COMPS):
+                    tg = {x.id for gen in cpr.generators
+                          for x in ast.walk(gen.target)
+                          if isinstance(x, ast.Name)}
+                    if 'task_info' in tg:
+                        comp.append(cpr)
+                        bound |= {id(x) for x in ast.walk(cpr)}
+            for x in ast.walk(oe):
+                if isinstance(x, ast.Name) and x.id == 'task_info' and \
+                        isinstance(x.ctx, ast.Load) and id(x) not in bound:
+                    for d in rd.reaching(on, 'task_info'):
+                        if d.kind in ('iter', 'unpack', 'assign'):
+                            loops.add(d.node.id)
+        return loops, comp
+
     for n, c in calls:
-        sql_src = ' '.join(unparse(e) for _, e in rd.origins(n, kwarg(c, 'sql')))
+        sql_pairs = rd.origins(n, kwarg(c, 'sql'))
+        sql_src = ' '.join(unparse(e) for _, e in sql_pairs)
         ev = kwarg(c, 'evolutions')
         if 'task_info' not in sql_src:
             ctx.finding(f, c, 'the SQL handed to task.execute does not come '
@@ -506,8 +532,18 @@ def r5_payload_provenance(ctx):
                         'evolution' % unparse(kwarg(c, 'sql')),
                         key='evolutions-not-from-batch')
             continue
-        ev_src = ' '.join(unparse(e) for _, e in rd.origins(n, ev))
-        if 'task_info' in ev_src:
+        ev_pairs = rd.origins(n, ev)
+        ev_src = ' '.join(unparse(e) for _, e in ev_pairs)
+        sql_loops, _c = entry_defs(sql_pairs)
+        ev_loops, ev_comp = entry_defs(ev_pairs)
+        if ev_comp:
+            ctx.finding(f, c, 'the announced evolutions are selected with '
+                        'labels aggregated over several batch entries (%s): '
+                        'labels are only unique per app, so an evolution of '
+                        'this task that runs in another batch is announced '
+                        'here too' % ' '.join(unparse(ev_comp[0]).split())[:70],
+                        key='evolutions-from-aggregated-entries')
+        elif 'task_info' in ev_src and ev_loops and ev_loops <= sql_loops:
             ctx.ok(f, 'announced evolutions and executed SQL come from the '
                    'same batch entry', c)
         else:
